@@ -185,6 +185,8 @@ def render_cdef_api(cdef_decls, flex):
         a = d["a"]
         if a == "DeclStruct" and ("su", (d["kind"], d["tag"])) in flex:
             lines.append("%s %s { %s ...; };" % (d["kind"], d["tag"], mg.fields_text(d["fs"])))
+        elif a == "DeclGlobal" and ("gv", d["n"]) in flex and d["t"][0] == "arr":
+            lines.append("extern %s;" % mg.decl(["arr", d["t"][1], "..."], d["n"]))
         elif a == "DeclConst" and ("k", d["n"]) in flex:
             lines.append("\n#define %s ...\n" % d["n"])
         else:
